@@ -15,8 +15,18 @@ PROP_FILE = LEAN / "BlackIt/Properties/C17.lean"
 
 # ------------------------------------------------------------------ generators
 def gen_grid(rng, chk) -> np.ndarray:
-    kind = rng.choice(["arange", "arange", "irregular", "dyadic", "single", "dups", "wide"])
+    kind = rng.choice(["arange", "arange", "irregular", "dyadic", "single", "dups", "wide", "subnormal", "extreme_range"])
     chk.count("grid:" + kind)
+    if kind == "subnormal":
+        # elements that are small odd multiples of the smallest subnormal (halving or scaling them is not exact), both signs
+        n = rng.randint(2, 12)
+        ks = sorted({rng.choice([-1, 1, 1]) * rng.randint(0, 40) for _ in range(n)})
+        return np.array([k * 5e-324 for k in ks], dtype=np.float64)
+    if kind == "extreme_range":
+        # a non-uniform grid from tiny to the top of the float range
+        xs = sorted({rng.choice([0.0, 5e-324, 1.5e-323, 2.2250738585072014e-308, 1e-300, 1.0, 1e300, 8.9e307, 1.7e308, -1.7e308, -1e300, -5e-324])
+                     for _ in range(rng.randint(2, 9))})
+        return np.array(xs, dtype=np.float64)
     if kind == "single":
         return np.array([rng.choice([0.0, -3.5, 1e-9, 7e8])])
     if kind == "arange":
@@ -182,7 +192,20 @@ def run(chk: Check):
                 chk.disagree("digitize_data != BlackIt.Snap.digitize", {"request": reqs[0][:0] + "snap.digitize ...",
                              "impl": impl[:400], "model": ans[:400], "grids": [g.tolist() for g in grids], "data": data.tolist()})
             continue
-        out = get_closest(grid, vals.copy())
+        # "acts element-wise on arrays": the same values as a 1-d, 2-d or 3-d array (and as a non-contiguous view) must give the same results
+        shaped = vals.copy()
+        how = rng.choice(["1d", "1d", "2d", "3d", "strided"])
+        if how == "2d" and len(vals) >= 2 and len(vals) % 2 == 0:
+            shaped = shaped.reshape(2, -1)
+        elif how == "3d" and len(vals) >= 4 and len(vals) % 4 == 0:
+            shaped = shaped.reshape(2, 2, -1)
+        elif how == "strided":
+            shaped = np.repeat(shaped, 2)[::2]
+        chk.count("array_shape:" + "x".join(map(str, shaped.shape)) if shaped.ndim > 1 else "array_shape:1d")
+        out = get_closest(grid, shaped)
+        if out.shape != shaped.shape:
+            chk.fail(f"get_closest changed the array shape {shaped.shape} -> {out.shape}", {"case": {"grid": [f2h(g) for g in grid], "values": [f2h(v) for v in vals]}})
+        out = np.asarray(out).reshape(-1)
         inside = [v for v in vals.tolist() if grid[0] < v < grid[-1] and v not in set(grid.tolist())]
         nontriv = len(grid) >= 2 and bool(inside)
         chk.case([kind, grid.tolist(), vals.tolist()], nontriv,
